@@ -28,7 +28,24 @@ pub struct PStmt
     /// 0 none 1 ignore 2 no-kvp
     pub directive: u8,
     pub trailing_comma: bool,
+    /// syntactic context the statement is placed in (index into CONTEXTS9)
+    #[serde(default)]
+    pub context: u8,
 }
+
+/// (text before, text after): every context executes the statement exactly once
+const CONTEXTS9: &[(&str, &str)] = &[
+    ("", ";"),
+    ("if n > 0 { ", " }"),
+    ("if n < 0 { } else { ", "; }"),
+    ("match n { _ => ", ", }"),
+    ("(|| ", ")();"),
+    ("{ ", "; }"),
+    ("let _unit = ", ";"),
+    ("for _i in 0..1 { ", " }"),
+    ("loop { ", "; break; }"),
+    ("let _ = Some(n).map(|_v| ", ");"),
+];
 
 #[derive(Clone, Debug, PartialEq, Eq, Hash, Serialize, Deserialize)]
 pub struct Program
@@ -90,9 +107,9 @@ fn pstmt() -> BoxedStrategy<PStmt>
     (
         (0u8..5, any::<bool>(), proptest::option::weighted(0.35, 0u8..4), vec(0u8..KVS.len() as u8, 0..=3)),
         (proptest::option::weighted(0.2, 1u32..5000), vec(0u8..PIECES.len() as u8, 0..6), vec(0u8..GAPS9.len() as u8, 1..6)),
-        (prop_oneof![8 => Just(0u8), 1 => Just(1u8), 1 => Just(2u8)], any::<bool>()),
+        (prop_oneof![8 => Just(0u8), 1 => Just(1u8), 1 => Just(2u8)], any::<bool>(), prop_oneof![3 => Just(0u8), 2 => 1u8..CONTEXTS9.len() as u8]),
     )
-        .prop_map(|((level, qualified, target, kvs), (existing_ref, pieces, gaps), (directive, trailing_comma))| PStmt {
+        .prop_map(|((level, qualified, target, kvs), (existing_ref, pieces, gaps), (directive, trailing_comma, context))| PStmt {
             level,
             qualified,
             target,
@@ -102,6 +119,7 @@ fn pstmt() -> BoxedStrategy<PStmt>
             gaps,
             directive,
             trailing_comma,
+            context,
         })
         .boxed()
 }
@@ -131,6 +149,8 @@ fn render(p: &Program) -> RenderedProg
             _ => (),
         }
         body.push_str("    ");
+        let ctx = CONTEXTS9[s.context as usize % CONTEXTS9.len()];
+        body.push_str(ctx.0);
         let start = body.len();
         let mut gi = 0usize;
         let mut gap = |body: &mut String| {
@@ -216,7 +236,8 @@ fn render(p: &Program) -> RenderedProg
         gap(&mut body);
         body.push(')');
         spans.push((start, body.len()));
-        body.push_str(";\n");
+        body.push_str(ctx.1);
+        body.push('\n');
     }
     RenderedProg { body, spans }
 }
@@ -513,7 +534,7 @@ pub fn run(env: &Env, rec: &Recorder) -> (String, Vec<&'static str>)
     rec.extra("programs", json!(rec.cases()));
     rec.extra("disagreements_checked", json!(rec.violation_count()));
     (
-        "programs of 12-30 log statements (5 levels, bare or log::-qualified, optional target, 0-3 key-values incl. shorthand captures and ?/%/debug/display modifiers, format strings with positional/inline/named/width arguments, escaped quotes and braces, multi-line layouts with comments between arguments, breadlog:ignore / no-kvp directives, some statements already referenced), both styles. Breadlog edits the program; ONE crate containing the original and the edited body is compiled with rustc against log 0.4.22 (feature kv) and executed with a capturing logger. Oracle: edited program compiles; same number of records; unedited statements log identically; an edited statement logs the same level/target/key-values and message with exactly `[ref: N] ` prepended (and the documented regex extracts N), or the same message with (ref, N) prepended to the key-values. Non-trivial = distinct edited statement with a target, key-values or >= 2 format arguments".to_string(),
+        "programs of 12-30 log statements (5 levels, bare or log::-qualified, optional target, 0-3 key-values incl. shorthand captures and ?/%/debug/display modifiers, format strings with positional/inline/named/width arguments, escaped quotes and braces, multi-line layouts with comments between arguments, ten syntactic contexts (plain, if/else, match arm, closure, block, let, for, loop, map), breadlog:ignore / no-kvp directives, some statements already referenced), both styles. Breadlog edits the program; ONE crate containing the original and the edited body is compiled with rustc against log 0.4.22 (feature kv) and executed with a capturing logger. Oracle: edited program compiles; same number of records; unedited statements log identically; an edited statement logs the same level/target/key-values and message with exactly `[ref: N] ` prepended (and the documented regex extracts N), or the same message with (ref, N) prepended to the key-values. Non-trivial = distinct edited statement with a target, key-values or >= 2 format arguments".to_string(),
         vec![":err/:sval/:serde capture modifiers are excluded: their crates (value-bag-serde1, sval) are not available offline, so such programs cannot be compiled here", "a generated program whose ORIGINAL does not compile is a generator defect: counted in class_histogram, never reported as a violation"],
     )
 }
